@@ -493,9 +493,10 @@ class Interp:
                         self.gadd(st, "unhinged", tgt)     # still in the cache's table, no longer in its list
                 except Unsupported:
                     pass
-        if self.splice_role(body) and args and args[0][0] == "ptr":
+        if self.splice_role(body) and args and args[0][0] in ("ptr", "struct"):
             try:
-                ep = self.load(st, *self.resolve_ptr(st, args[0]))
+                # the node is the first argument: `&mut self` (a pointer to the handle) or the handle by value
+                ep = self.load(st, *self.resolve_ptr(st, args[0])) if args[0][0] == "ptr" else args[0]
                 raw = ep[2].get(self.r.EPTR_RAW) if ep[0] == "struct" else None
                 if raw is not None and raw[0] == "ptr":
                     tgt = self.resolve_ptr(st, raw)[0]
